@@ -629,7 +629,11 @@ def main(ck):
             return
     crashed = [h for h in hs if h.get("crash")]
     for h in crashed[:3]:
-        ck.broken.append("harness c02: history %d aborted: %s" % (h["case"], h["crash"][:300]))
+        if h["crash"].startswith("timeout"):
+            # a history that never finishes is a concrete failing input: some read or reorganisation did not return
+            ck.violation({"kind": "hang", "what": h["crash"], "history": {k: v for k, v in h.items() if k in ("case", "nwal", "nser", "auto", "in")}})
+        else:
+            ck.broken.append("harness c02: history %d aborted: %s" % (h["case"], h["crash"][:300]))
 
     ck.log("harness done: %d histories" % len(hs))
     res = eval_model(ck, hs, ok)
